@@ -512,3 +512,25 @@ func newROMAnyWay(sel int, name string, img []byte) (*snes.ROM, error) {
 	}
 	return snes.NewROM(name, img)
 }
+
+// srcStrings: the string literals of the library's source (collected by ./check into the file named by
+// VERIF_SRC_STRINGS): a dictionary for every input that is text - titles, names, labels, comments.
+var srcStringsOnce struct {
+	once sync.Once
+	v    []string
+}
+
+func srcStrings() []string {
+	srcStringsOnce.once.Do(func() {
+		b, err := os.ReadFile(os.Getenv("VERIF_SRC_STRINGS"))
+		if err != nil {
+			return
+		}
+		for _, ln := range strings.Split(string(b), "\n") {
+			if ln != "" {
+				srcStringsOnce.v = append(srcStringsOnce.v, ln)
+			}
+		}
+	})
+	return srcStringsOnce.v
+}
